@@ -1,5 +1,7 @@
 import Driver.Codec
 import Rcgen.Spec.Props
+import Rcgen.Model.Pem
+import Rcgen.Spec.Pem
 /- line-protocol driver: one request per line, one response per line -/
 namespace Driver
 open Rcgen Rcgen.Model Sexp
@@ -160,6 +162,30 @@ def handle (op : String) (args : List Sexp) : R Sexp := do
     let der ← der.asBytes
     pure (failList (Spec.clause "C04:canonical-der" (Spec.spkiCanonical der) ++
       Spec.clause "C11:spki-is-rfc-encoding" (der == Spec.rfcSpki k)))
+  | "pem", [k, der] => do
+    let kind ← match ← k.asAtom with
+      | "certificate" => pure PemKind.certificate
+      | "request" => pure PemKind.request
+      | "crl" => pure PemKind.crl
+      | "privateKey" => pure PemKind.privateKey
+      | "publicKey" => pure PemKind.publicKey
+      | s => throw s!"bad pem kind {s}"
+    pure (ofBytes (pemEncode kind.label (← der.asBytes)))
+  | "spec-pem", [t] => do
+    match Spec.pemDecode (← t.asBytes) with
+    | some (l, d) => pure (.list [.atom "ok", ofBytes l, ofBytes d])
+    | none => pure (.atom "fail")
+  | "import-cert", [cfg, der] => do
+    let crypto := (← cfg.asAtom) != "nocrypto"
+    match Spec.splitSigned (← der.asBytes) with
+    | none => pure (.list [.atom "err", .atom "CouldNotParseCertificate"])
+    | some (tbs, _, _) =>
+      match Spec.decodeTbsCert tbs with
+      | none => pure (.list [.atom "err", .atom "CouldNotParseCertificate"])
+      | some c =>
+        match importCa crypto c with
+        | .ok p => pure (.list [.atom "ok", encParams p])
+        | .error e => pure (.list [.atom "err", .atom (errName e)])
   | "spki", [k] => do pure (ofBytes (spkiDer (← decKey k)))
   | "sha", [k, b] => do
     let b ← b.asBytes
